@@ -272,6 +272,42 @@ def body(chk, db, cfgname):
                 r4.bad(site, g.loc(), "; ".join(problems), cfgname)
             else:
                 r4.ok(site, g.loc(), "for every RightIndex in [0,NumberOfBlocks) with mapsTo(RightIndex).isCorrect(): one part (H[Right] -> H[Left]) registered in parts and both maps", cfgname)
+    # ================================================================== R5
+    r5 = chk.rule("C10-R5", "look-ups by left / right block use the map of their own side (also when they forward to another overload)", "F4 same-role wiring", 4)
+    sides = {"Left": ("mapPartsFromLeft", "getPartFromLeftIndex", "getLeftIndex"), "Right": ("mapPartsFromRight", "getPartFromRightIndex", "getRightIndex")}
+    for g in sorted([x for x in db.fns.values() if x.rec == "Pomerol::FieldOperator" and x.body is not None and x.body >= 0 and
+                     strip_targs(x.name).split("::")[-1] in ("getPartFromLeftIndex", "getPartFromRightIndex", "getLeftIndex", "getRightIndex")], key=lambda y: (y.file, y.line)):
+        nm = strip_targs(g.name).split("::")[-1]
+        mine = "Left" if "Left" in nm else "Right"
+        other = "Right" if mine == "Left" else "Left"
+        site = "%s/%s" % (g.qn, ",".join(p_.get("tw", "") for p_ in g.params))
+        used = set()
+        for j, n in g.walk(g.body):
+            if n["k"] == "member" and n.get("rec") == "Pomerol::FieldOperator" and n.get("n") in (sides["Left"][0], sides["Right"][0]):
+                used.add(("Left" if "Left" in n["n"] else "Right", "map " + n["n"]))
+            if n["k"] == "call" and strip_targs(n.get("cname") or "").startswith("Pomerol::FieldOperator::"):
+                cn_ = strip_targs(n["cname"]).split("::")[-1]
+                if cn_ in sides["Left"][1:] or cn_ in sides["Right"][1:]:
+                    used.add(("Left" if "Left" in cn_ else "Right", cn_ + "()"))
+        if nm in ("getLeftIndex", "getRightIndex"):
+            # these translate a block of the OTHER side through the matching view of the bimap
+            for j, n in g.walk(g.body):
+                if n["k"] == "member" and n.get("n") in ("left", "right") and "bimap" in (n.get("rec") or n.get("q") or ""):
+                    used.add(("Left" if n["n"] == "left" else "Right", "view ." + n["n"]))
+        wrong = sorted(u for sd, u in used if sd == other)
+        right_ = sorted(u for sd, u in used if sd == mine)
+        # getLeftIndex(RightIndex) / getRightIndex(LeftIndex) translate from the OTHER side by construction
+        if nm in ("getLeftIndex", "getRightIndex"):
+            mine, other = other, mine
+            wrong, right_ = right_, wrong
+        if wrong and not right_:
+            r5.bad(site, g.loc(), "%s is answered from %s: the part / block of the other side is returned (for a block that is both a left and a right block this is silently another part; at the end of a ladder it dereferences end())" % (nm, ", ".join(wrong)), cfgname)
+        elif right_ and not wrong:
+            r5.ok(site, g.loc(), "uses %s" % ", ".join(right_), cfgname)
+        elif not used:
+            r5.unknown(site, g.loc(), "neither of the two side maps nor a sibling look-up is used", cfgname)
+        else:
+            r5.unknown(site, g.loc(), "uses both sides (%s)" % ", ".join(sorted(u for _, u in used)), cfgname)
     chk.undecided.append("{c_i, c+_j} = delta_ij assembled over all blocks; Fock-basis back-transformation equals the Jordan-Wigner matrix (value level); degenerate eigenvectors")
 
 
